@@ -1,4 +1,28 @@
-(* placeholder until the proofs are integrated *)
-From LLTD Require Import BufProofs.
-Theorem C20_placeholder : True. Proof. exact I. Qed.
-Print Assumptions C20_placeholder.
+(* C20 - the protocol core reaches the outside world only through the port API.
+   The facts (coq/gen/Symbols.v) are regenerated on every run by bin/symfacts.py: the four core files compiled on
+   their own by {gcc, clang} x {-O0, -O2, -Os} x {hosted, -ffreestanding}, linked relocatably, `nm -u`; the port
+   API parsed from lltdPort.h; system headers included by the core; the repository's own lint script.  The domain
+   is finite and enumerated completely; the weight of this property is on the translator, the theorems are the
+   complete enumeration checked by the kernel. *)
+From Coq Require Import List String Bool.
+From LLTD Require Import Symbols SpecSymbols.
+Import ListNotations.
+
+Theorem C20_twelve_configurations_built : List.length builds = 12%nat /\ build_errors = [].
+Proof. split; reflexivity. Qed.
+Theorem C20_only_port_api_and_memory_primitives :
+  forallb (fun b => forallb (allowed port_api) (snd (fst b))) builds = true.
+Proof. vm_compute. reflexivity. Qed.
+Theorem C20_port_api_is_a_name_space : forallb is_port_name port_api = true.
+Proof. vm_compute. reflexivity. Qed.
+Theorem C20_no_library_or_os_header :
+  forallb (fun f => forallb (mem_eqb freestanding_headers) (snd f)) system_includes = true.
+Proof. vm_compute. reflexivity. Qed.
+Theorem C20_repository_lint_clean : lint_hits = [].
+Proof. reflexivity. Qed.
+(* premise of C17: the only writable datum of the core is the interface registry *)
+Theorem C17_premise_single_writable_global :
+  forallb (fun b => forallb (String.eqb "g_iface_states") (snd b)) builds = true.
+Proof. vm_compute. reflexivity. Qed.
+Print Assumptions C20_only_port_api_and_memory_primitives.
+Print Assumptions C20_no_library_or_os_header.
